@@ -161,16 +161,17 @@ structure BuildNF (a : Nat) (b : Built) (sg : Segs) : Prop where
 
 theorem buildSuper_nf {a : Nat} {cs : List CItem} {len : Option Nat} {b : Built}
     (h : buildSuper a cs len = .ok b) :
-    ∃ sg, BuildNF a b sg ∧ (∀ i bs, CItem.obj i bs ∈ sgItems sg → CItem.obj i bs ∈ cs) := by
+    ∃ sg, BuildNF a b sg ∧ (∀ i bs, CItem.obj i bs ∈ sgItems sg → CItem.obj i bs ∈ cs) ∧
+      (∀ p, CItem.nuc p ∈ sgItems sg → CItem.nuc p ∈ cs ∨ ∃ w x, CItem.nuc w ∈ cs ∧ p = explicit x w) := by
   rcases buildSuper_ok_cases h with ⟨hw, _, rfl⟩ | ⟨pre, w, post, L, rfl, hpre, hw, hpost, rfl, hle, rfl⟩
   · refine ⟨[(a, cs)], ⟨by simp [sgRefs], by simp [sgBases], by simp [sgLen], by simpa using hw,
-      by simp [sgAnons], ?_, ?_, ?_, by simp⟩, by simp [sgItems]⟩
+      by simp [sgAnons], ?_, ?_, ?_, by simp⟩, by simp [sgItems], fun p hp => Or.inl (by simpa [sgItems] using hp)⟩
     · simp only [anonsFrom_names]; exact nodup_names_of_nums (nodup_range1 _ _)
     · simp [sgNums, nodup_range1]
     · simp only [sgNums, List.flatMap_cons, List.flatMap_nil, List.append_nil, List.mem_range'_1]
       intro j hj; omega
   · refine ⟨[(a, pre), (a + nucCount pre + nucCount post,
-        [.nuc (explicit (L - (lenSum pre + lenSum post) - fixedSum w) w)]), (a + nucCount pre, post)], ⟨?_, ?_, ?_, ?_, ?_, ?_, ?_, ?_, ?_⟩, ?_⟩
+        [.nuc (explicit (L - (lenSum pre + lenSum post) - fixedSum w) w)]), (a + nucCount pre, post)], ⟨?_, ?_, ?_, ?_, ?_, ?_, ?_, ?_, ?_⟩, ?_, ?_⟩
     · simp [sgRefs, refsFrom, fixedSum_explicit, hw]; omega
     · simp [sgBases, basesFrom, fixedSum_explicit, hw]; omega
     · simp [sgLen, lenSum, fixedSum_explicit, hw]; omega
@@ -201,6 +202,14 @@ theorem buildSuper_nf {a : Nat} {cs : List CItem} {len : Option Nat} {b : Built}
       · exact Or.inl h
       · simp at h
       · exact Or.inr (Or.inr h)
+    · intro p
+      simp only [sgItems, List.flatMap_cons, List.flatMap_nil, List.append_nil, List.mem_append, List.mem_cons,
+        List.not_mem_nil, or_false]
+      rintro (h | h | h)
+      · exact Or.inl (Or.inl h)
+      · simp only [CItem.nuc.injEq] at h
+        exact Or.inr ⟨w, _, by simp, h⟩
+      · exact Or.inl (Or.inr (Or.inr h))
 
 /-! ### `registerAnon` -/
 
